@@ -1,5 +1,6 @@
 '''Sitemap scraper'''
 import gettext
+import zlib
 import logging
 
 import wpull.util
@@ -37,7 +38,9 @@ class SitemapScraper(SitemapReader, BaseExtractiveScraper):
                 for link in link_iter:
                     link_contexts.add(LinkContext(link, linked=True))
 
-        except (UnicodeError, self._html_parser.parser_error) as error:
+        except (UnicodeError, self._html_parser.parser_error,
+                zlib.error, EOFError, OSError) as error:
+            # zlib.error, EOFError, OSError: corrupt or truncated gzip data
             _logger.warning(
                 _('Failed to read document at ‘{url}’: {error}'),
                 url=request.url_info.url, error=error
